@@ -23,6 +23,7 @@ func Creator(ctx context.Context, name string, options map[string]string) (physi
 	defer f.Close()
 
 	fields := make(map[string]octosql.Type)
+	fieldSeen := make(map[string]int)
 
 	sc := bufio.NewScanner(f)
 	sc.Buffer(nil, 1024*1024)
@@ -44,6 +45,7 @@ func Creator(ctx context.Context, name string, options map[string]string) (physi
 		}
 
 		o.Visit(func(key []byte, v *fastjson.Value) {
+			fieldSeen[string(key)]++
 			if t, ok := fields[string(key)]; ok {
 				fields[string(key)] = octosql.TypeSum(t, getOctoSQLType(v))
 			} else {
@@ -57,6 +59,10 @@ func Creator(ctx context.Context, name string, options map[string]string) (physi
 
 	var schemaFields []physical.SchemaField
 	for k, t := range fields {
+		if fieldSeen[k] < i {
+			// Some previewed objects don't have this key: the column is NULL there.
+			t = octosql.TypeSum(t, octosql.Null)
+		}
 		schemaFields = append(schemaFields, physical.SchemaField{
 			Name: k,
 			Type: t,
